@@ -4,7 +4,7 @@
 From Coq Require Import List String NArith ZArith Bool Lia.
 From Piko Require Import Base.Maps Base.Strs Gossip.Types Gossip.Local Gossip.Apply Gossip.Codec.
 From Piko Require Import Gossip.World GossipP.SortP GossipP.LocalP GossipP.Valid GossipP.ApplyValid GossipP.CodecP GossipP.ConvergeP
-     GossipP.MemberP GossipP.WorldInv GossipP.WorldConv.
+     GossipP.MemberP GossipP.WorldInv GossipP.WorldConv GossipP.WorldRounds GossipP.RoundsExample.
 Import ListNotations.
 Open Scope string_scope. Open Scope list_scope. Open Scope N_scope.
 
@@ -95,11 +95,63 @@ Theorem C03_exchange_makes_progress :
   (deficit L (ver_of (fst (apply_delta nows ca (map part_to_delta parts))) y) < deficit L (ver_of ca y))%nat.
 Proof. exact exchange_makes_progress. Qed.
 
-(* PARTIAL (named): the last composition step - a fairness assumption on the SCHEDULE (every ordered pair of live nodes
-   exchanges in every round, the packets of the exchange are delivered) turned into "Psi rounds suffice" - is stated
-   above in prose and exercised on every run by the convergence campaigns on the real nodes (monitor: the deficit never
-   increases and strictly decreases every round until all live views equal the owners' states); the running node's
-   random peer selection and timers are not modelled. *)
+(* The composition, for whole clusters (GossipP/WorldRounds.v). A PULL a <- b is one complete exchange on an otherwise
+   quiet network: a's digest request to b, b's delta + digest reply, a's delta back (WSend and four deliveries, the
+   real handlers). A pull is [good] in w when a and b are distinct cluster nodes, a's digest is produced with a legal
+   map-order oracle, fits the packet size and lists b, and the first entry of whatever delta reply may be due fits
+   ([roomy]: finding G1 excluded). [quiet w] = w is reachable from the initial cluster by any allowed history
+   (local writes, sends, delivery/duplication/loss in any order, liveness, join/leave streams), versions below 2^64,
+   nothing in flight. PsiAll = the total deficit over all observers and all owners.
+
+   One good pull a <- b run while a is behind b's own state strictly decreases PsiAll - whatever node the (possibly
+   cut) reply happens to start with, and although that node is only known through third parties. *)
+Theorem C03_pull_makes_progress :
+  forall specs, NoDup (map fst specs) -> NoDup (map snd specs) ->
+  forall w a b ida addra idb addrb ca cb o1 o2 max nowsA nowsB p,
+  reach (init_world specs) w -> wsmall w -> w_net w = [] -> a <> b ->
+  nth_error specs a = Some (ida, addra) -> nth_error specs b = Some (idb, addrb) ->
+  nth_error (w_nodes w) a = Some ca -> nth_error (w_nodes w) b = Some cb ->
+  make_digest_packet ca addrb true o1 max = Some p -> In idb o1 ->
+  (0 < pair_deficit w a idb)%nat -> roomy w max ->
+  (PsiAll specs (wrun w (pull a b o1 o2 max nowsA nowsB)) < PsiAll specs w)%nat.
+Proof. exact pull_progress. Qed.
+
+(* "within a bounded number of exchanges": any sequence of at least PsiAll w ROUNDS, each containing a good pull for
+   every ordered pair of nodes (in any order, with any legal oracles and any packet sizes that are roomy), ends with
+   total deficit zero and a quiet network again ... *)
+Theorem C03_rounds_converge :
+  forall specs, NoDup (map fst specs) -> NoDup (map snd specs) -> specs <> [] ->
+  forall rs w, quiet specs w -> good_rounds specs w rs -> Forall (covers specs) rs -> (PsiAll specs w <= List.length rs)%nat ->
+  quiet specs (run_rounds w rs) /\ PsiAll specs (run_rounds w rs) = 0%nat.
+Proof. intros specs H1 H2 H3 rs w. exact (rounds_converge specs H1 H2 rs w H3). Qed.
+
+(* ... and total deficit zero means: every node's view of every other node it knows IS that node's own state - same
+   version, same keys, values and deletion markers *)
+Theorem C03_converged_views :
+  forall specs, NoDup (map fst specs) -> NoDup (map snd specs) ->
+  forall w a b ida addra idb addrb ca cb V O,
+  reach (init_world specs) w -> PsiAll specs w = 0%nat -> a <> b ->
+  nth_error specs a = Some (ida, addra) -> nth_error specs b = Some (idb, addrb) ->
+  nth_error (w_nodes w) a = Some ca -> nth_error (w_nodes w) b = Some cb ->
+  lookup idb (c_nodes ca) = Some V -> lookup idb (c_nodes cb) = Some O ->
+  n_ver V = n_ver O /\ forall k, lookup k (n_ents V) = lookup k (n_ents O).
+Proof. exact converged_views. Qed.
+
+(* the hypotheses are satisfiable: two nodes, a one write behind b after a join; one round of two good pulls is a
+   schedule C03_rounds_converge applies to, and the computed run ends with a's view of b = b's state (version 2) *)
+Example C03_rounds_example :
+  quiet ex_specs ex_w /\ PsiAll ex_specs ex_w = 1%nat /\ good_rounds ex_specs ex_w [ex_round] /\ covers ex_specs ex_round /\
+  PsiAll ex_specs (run_rounds ex_w [ex_round]) = 0%nat /\
+  option_map (fun c => option_map (fun s => n_ver s) (lookup "b" (c_nodes c))) (nth_error (w_nodes (run_rounds ex_w [ex_round])) 0) = Some (Some 2).
+Proof.
+  split; [exact ex_quiet|]. split; [exact ex_behind|]. split; [exact ex_good_rounds|]. split; [exact ex_covers|].
+  split; [exact (proj2 ex_converges)|exact (proj2 ex_final_views)].
+Qed.
+
+(* PARTIAL (named): what is NOT proved is that the running node produces such a schedule - its random peer selection
+   and timers (fairness), and exchanges that overlap in time (the rounds theorem runs each exchange on a quiet network;
+   for arbitrary interleavings only C03_world_no_regress is proved: nothing learned is ever lost). The convergence
+   campaigns on the real nodes exercise exactly these schedules on every run. *)
 
 Print Assumptions C03_no_regress.
 Print Assumptions C03_progress.
@@ -110,3 +162,7 @@ Print Assumptions C03_refuted_oversize.
 Print Assumptions C03_world_no_regress.
 Print Assumptions C03_world_versions_monotone.
 Print Assumptions C03_exchange_makes_progress.
+Print Assumptions C03_pull_makes_progress.
+Print Assumptions C03_rounds_converge.
+Print Assumptions C03_converged_views.
+Print Assumptions C03_rounds_example.
